@@ -184,14 +184,15 @@ fn concurrent_ids_unit(name: &'static str, progs: Vec<Vec<crate::litmus::COp>>, 
     use crate::litmus::*;
     let desc = format!("{:?}: every message id returned is distinct", progs);
     let f: ScenFn = scen!([progs] |cx| {
+        let mut seen = std::collections::BTreeSet::new();
         if pre {
             must!(cx, "setup:create-topic", { let a = cx.api.clone(); async move { a.create_topic(T0).await } });
-            must!(cx, "setup:publish", { let a = cx.api.clone(); async move { a.publish(T0, vec![(b"pre".to_vec(), vec![])]).await } });
+            let ids = must!(cx, "setup:publish", { let a = cx.api.clone(); async move { a.publish(T0, vec![(b"pre".to_vec(), vec![]), (b"pre2".to_vec(), vec![])]).await } });
+            seen.extend(ids);
         }
         let l = start(&cx, &progs, &[]);
         tryv!(await_termination(&cx, &l, name).await);
         let key = l.hist.key();
-        let mut seen = std::collections::BTreeSet::new();
         for c in l.hist.calls() {
             if let R::Ids(Ok(ids)) = &c.result {
                 for id in ids {
@@ -215,6 +216,7 @@ pub fn units(thorough: bool) -> Vec<Unit> {
         ids_unit(if thorough { 8 } else { 6 }),
         concurrent_ids_unit("create‖create;publish", vec![vec![CreateTopic(T0), Publish(T0, 2)], vec![CreateTopic(T1), Publish(T1, 2)]], false, d),
         concurrent_ids_unit("delete;create‖create;publish", vec![vec![DeleteTopic(T0), CreateTopic(T0), Publish(T0, 1)], vec![CreateTopic(T1), Publish(T1, 1)], vec![Publish(T0, 1)]], true, d),
+        concurrent_ids_unit("delete‖publish‖publish", vec![vec![DeleteTopic(T0)], vec![Publish(T0, 1), Publish(T0, 2)], vec![Publish(T0, 1)]], true, d),
     ]
 }
 
